@@ -1815,15 +1815,21 @@ def explain_vars(fn):
     """substitute `v = <pure expr>` (v assigned once, in a straight statement list) into the uses that follow in the same list,
     when nothing between the definition and a use can change what the expression reads"""
     # a, b = (x, y)  ->  a = x; b = y   (x, y do not read a or b)
+    paired = set()  # the two arms of `if c: a, b = X else: a, b = Y` stay whole: together they are one conditional assignment
+    for n_ in _walk_same_function(fn):
+        if isinstance(n_, ast.If) and len(n_.body) == 1 and len(n_.orelse) == 1 and all(isinstance(x_, ast.Assign) and len(x_.targets) == 1 and isinstance(x_.targets[0], ast.Tuple) for x_ in (n_.body[0], n_.orelse[0])) \
+                and ast.dump(n_.body[0].targets[0]) == ast.dump(n_.orelse[0].targets[0]):
+            paired |= {id(n_.body[0]), id(n_.orelse[0])}
     for lst in _stmt_lists(fn):
         i = 0
         while i < len(lst):
             s = lst[i]
-            if isinstance(s, ast.Assign) and len(s.targets) == 1 and isinstance(s.targets[0], ast.Tuple) and isinstance(s.value, ast.Tuple) and len(s.targets[0].elts) == len(s.value.elts) >= 2 \
+            if isinstance(s, ast.Assign) and id(s) not in paired and len(s.targets) == 1 and isinstance(s.targets[0], ast.Tuple) and isinstance(s.value, ast.Tuple) and len(s.targets[0].elts) == len(s.value.elts) >= 2 \
                     and all(isinstance(t, ast.Name) for t in s.targets[0].elts) and not any(isinstance(e, ast.Starred) for e in s.value.elts):
                 tn = {t.id for t in s.targets[0].elts}
-                if len(tn) == len(s.targets[0].elts) and not any(isinstance(x, ast.Name) and x.id in tn for e in s.value.elts for x in ast.walk(e)):
-                    new = [ast.fix_missing_locations(ast.copy_location(ast.Assign(targets=[t], value=e), s)) for t, e in zip(s.targets[0].elts, s.value.elts)]
+                pairs = [(t, e) for t, e in zip(s.targets[0].elts, s.value.elts) if not (isinstance(e, ast.Name) and e.id == t.id)]  # x = x says nothing
+                if len(tn) == len(s.targets[0].elts) and not any(isinstance(x, ast.Name) and x.id in tn for t, e in pairs for x in ast.walk(e)):
+                    new = [ast.fix_missing_locations(ast.copy_location(ast.Assign(targets=[t], value=e), s)) for t, e in pairs] or [ast.copy_location(ast.Pass(), s)]
                     lst[i:i + 1] = new
                     i += len(new)
                     continue
